@@ -254,6 +254,7 @@ type snap struct {
 	inactive []string
 	active   []string
 	votes    map[uint64]int // stored votes per proposal
+	now      time.Time
 	line     string
 }
 
@@ -268,6 +269,7 @@ func (h *H) observe() snap {
 	ctx := h.ctx()
 	k := h.s.App.GovKeeper
 	sn := snap{props: map[uint64]propObs{}, deps: map[[2]uint64]sdkmath.Int{}, depsAll: map[uint64]sdk.Coins{}, custom: map[string]fxgovtypes.CustomParams{}}
+	sn.now = ctx.BlockTime()
 	govAddr := authtypes.NewModuleAddress(govtypes.ModuleName)
 	sn.govAll = h.s.App.BankKeeper.GetAllBalances(ctx, govAddr)
 	sn.params, _ = k.Params.Get(ctx)
@@ -459,6 +461,61 @@ type tallySpec struct {
 	failIdx  int
 	failWhy  string
 	nMsgs    int
+	// what the votes and the stakes give, by the rule "every staked token of a bonded validator is counted once: for its
+	// delegator if the delegator voted, else for the validator's operator if that voted", in exact rationals
+	want [4]*big.Rat // yes, abstain, no, veto
+}
+
+func ratOfDec(d sdkmath.LegacyDec) *big.Rat { return new(big.Rat).SetFrac(d.BigInt(), dec18) }
+
+// specCounts: independent of x/gov/keeper/tally.go — reads the votes and the staking state only
+func (h *H) specCounts(ctx sdk.Context, pid uint64) [4]*big.Rat {
+	k := h.s.App.GovKeeper
+	sk := h.s.App.StakingKeeper
+	res := [4]*big.Rat{new(big.Rat), new(big.Rat), new(big.Rat), new(big.Rat)}
+	slot := map[v1.VoteOption]int{v1.OptionYes: 0, v1.OptionAbstain: 1, v1.OptionNo: 2, v1.OptionNoWithVeto: 3}
+	type val struct {
+		tokens, shares, voted *big.Rat
+	}
+	vals := map[string]*val{}
+	_ = sk.IterateBondedValidatorsByPower(ctx, func(_ int64, v stakingtypes.ValidatorI) bool {
+		vals[v.GetOperator()] = &val{new(big.Rat).SetInt(v.GetBondedTokens().BigInt()), ratOfDec(v.GetDelegatorShares()), new(big.Rat)}
+		return false
+	})
+	votes := map[string]v1.WeightedVoteOptions{}
+	rng := collections.NewPrefixedPairRange[uint64, sdk.AccAddress](pid)
+	_ = k.Votes.Walk(ctx, rng, func(key collections.Pair[uint64, sdk.AccAddress], v v1.Vote) (bool, error) {
+		votes[key.K2().String()] = v.Options
+		return false, nil
+	})
+	add := func(pw *big.Rat, opts v1.WeightedVoteOptions) {
+		for _, o := range opts {
+			w := ratOfDec(sdkmath.LegacyMustNewDecFromStr(o.Weight))
+			res[slot[o.Option]].Add(res[slot[o.Option]], new(big.Rat).Mul(pw, w))
+		}
+	}
+	for voter, opts := range votes {
+		addr, _ := sdk.AccAddressFromBech32(voter)
+		_ = sk.IterateDelegations(ctx, addr, func(_ int64, d stakingtypes.DelegationI) bool {
+			if v, ok := vals[d.GetValidatorAddr()]; ok && v.shares.Sign() > 0 {
+				sh := ratOfDec(d.GetShares())
+				v.voted.Add(v.voted, sh)
+				add(new(big.Rat).Quo(new(big.Rat).Mul(sh, v.tokens), v.shares), opts)
+			}
+			return false
+		})
+	}
+	for op, v := range vals {
+		bz, err := sk.ValidatorAddressCodec().StringToBytes(op)
+		if err != nil || v.shares.Sign() == 0 {
+			continue
+		}
+		if opts, ok := votes[sdk.AccAddress(bz).String()]; ok {
+			rest := new(big.Rat).Sub(v.shares, v.voted)
+			add(new(big.Rat).Quo(new(big.Rat).Mul(rest, v.tokens), v.shares), opts)
+		}
+	}
+	return res
 }
 
 // passes restates the decision on counts perturbed by d (the truncated fractions are unknown: the monitor only judges
@@ -526,6 +583,58 @@ func (h *H) monitor(op string, before, after snap, paidWho int, paid int64, spec
 	for pid, n := range after.votes {
 		if p, ok := after.props[pid]; n > 0 && (!ok || p.status != "voting") {
 			out.Violate(fmt.Sprintf("%d votes are stored for proposal %d which is not in its voting period (status %q)", n, pid, p.status))
+		}
+	}
+	// (1c) queue consistency on the real state: the inactive queue holds exactly the (deposit end, id) of the proposals in
+	// their deposit period, the active queue exactly the (voting end, id) of those in their voting period
+	{
+		wantI, wantA := map[string]bool{}, map[string]bool{}
+		for pid, p := range after.props {
+			if p.status == "deposit" {
+				wantI[fmt.Sprintf("%s/%d", h.rel(p.dEnd), pid)] = true
+			}
+			if p.status == "voting" {
+				wantA[fmt.Sprintf("%s/%d", h.rel(p.vEnd), pid)] = true
+			}
+		}
+		chk := func(name string, got []string, want map[string]bool) {
+			seen := map[string]bool{}
+			for _, e := range got {
+				if !want[e] {
+					out.Violate(fmt.Sprintf("%s queue has the entry %s but no proposal in that period with that end time", name, e))
+				}
+				seen[e] = true
+			}
+			for e := range want {
+				if !seen[e] {
+					out.Violate(fmt.Sprintf("a proposal is open with end/id %s but the %s queue has no such entry (it would never end)", e, name))
+				}
+			}
+		}
+		chk("inactive", after.inactive, wantI)
+		chk("active", after.active, wantA)
+	}
+	// (1d) the end-blocker of a block ends every period whose end is at or before the block's time
+	if f := strings.Fields(op); f[0] == "endblock" {
+		for pid, p := range after.props {
+			bp, existed := before.props[pid]
+			if !existed {
+				continue
+			}
+			if bp.status == "deposit" && !bp.dEnd.After(before.now) && p.status == "deposit" {
+				out.Violate(fmt.Sprintf("proposal %d: deposit period ended at %s, block time %s, but it is still in its deposit period", pid, h.rel(bp.dEnd), h.rel(&before.now)))
+			}
+			if bp.status == "voting" && !bp.vEnd.After(before.now) && p.status == "voting" && p.vEnd.Equal(*bp.vEnd) && bp.exp == p.exp {
+				out.Violate(fmt.Sprintf("proposal %d: voting period ended at %s, block time %s, but it was not tallied", pid, h.rel(bp.vEnd), h.rel(&before.now)))
+			}
+			if open(bp.status) && !open(p.status) && ((bp.status == "deposit" && bp.dEnd.After(before.now)) || (bp.status == "voting" && bp.vEnd.After(before.now))) {
+				out.Violate(fmt.Sprintf("proposal %d ended (%s) before the end of its %s period", pid, p.status, bp.status))
+			}
+		}
+		for pid, bp := range before.props {
+			if _, still := after.props[pid]; !still && !(bp.status == "deposit" && !bp.dEnd.After(before.now)) {
+				out.Violate(fmt.Sprintf("proposal %d (%s) was deleted by the end-blocker although its deposit period had not ended", pid, bp.status))
+			}
 		}
 	}
 	// (2) each deposit that disappears left the module exactly once, towards its depositor or out of supply
@@ -669,6 +778,23 @@ func (h *H) monitor(op string, before, after snap, paidWho int, paid int64, spec
 		gq := sdkmath.LegacyMustNewDecFromStr(before.params.Quorum)
 		if !gq.Equal(q) && (ts.pct().LT(q) != ts.pct().LT(gq)) {
 			out.Nontrivial("tally-decided-by-type-quorum:" + ap.status)
+		}
+		// the per-option counts are those the votes and the stakes give (each staked token once)
+		if f := strings.Split(ap.tally, "/"); len(f) == 4 && ts.want[0] != nil {
+			for i, name := range []string{"yes", "abstain", "no", "no_with_veto"} {
+				got, _ := new(big.Int).SetString(f[i], 10)
+				want := new(big.Int).Quo(ts.want[i].Num(), ts.want[i].Denom())
+				if d := new(big.Int).Sub(got, want); got != nil && d.CmpAbs(big.NewInt(1)) > 0 {
+					out.Violate(fmt.Sprintf("tally counted %s for %s, the votes and the stakes give %s (difference %s: voting power counted twice, or not at all)", got, name, want, d))
+				}
+			}
+			tot := new(big.Rat)
+			for i := range ts.want {
+				tot.Add(tot, ts.want[i])
+			}
+			if tot.Cmp(new(big.Rat).SetInt(ts.bonded.BigInt())) > 0 {
+				out.Violate(fmt.Sprintf("more voting power (%s) than bonded tokens (%s)", tot.FloatString(0), ts.bonded))
+			}
 		}
 		// the counted votes are gone (a converted expedited proposal starts its regular period without votes)
 		if after.votes[ts.pid] != 0 {
@@ -1002,6 +1128,7 @@ func (h *H) dueTallies() []tallySpec {
 		for _, m := range p.Messages {
 			ts.urls = append(ts.urls, m.TypeUrl)
 		}
+		ts.want = h.specCounts(ctx, key.K2())
 		ts.execOK, ts.failIdx = true, -1
 		if msgs, err := p.GetMsgs(); err != nil {
 			ts.execOK, ts.failWhy = false, "unpack"
